@@ -10,4 +10,5 @@ mkdir -p .deps .build evidence replays
   /venv/bin/pip install --no-index --find-links /opt/veriftools/wheels --target /verif/.deps atheris >/dev/null 2>&1 || echo "note: atheris not installable; fuzz tier will be skipped"
 /venv/bin/python vlib/build.py plain
 /venv/bin/python vlib/build.py asan
+/venv/bin/python vlib/build.py fuzz || echo "note: fuzz build failed; coverage-guided phase will be skipped"
 echo setup done
